@@ -102,3 +102,25 @@ class WriteSetEngine:
         if not obls:
             raise StaleContract(f"{c.qualname}: no site touching {recv} found")
         return obls
+
+
+class ClassHooksEngine:
+    """obligations over a class body: the class defines none of the listed special methods (e.g. custom pickle
+    hooks on a class whose default pickling the trusted-base argument relies on).  Anchored on one method of the
+    class (the contract's qualname) so the class is located in the real source on every run."""
+
+    def __init__(self, registry, opts=None):
+        self.reg = registry
+        self.trivial_frames = 0
+
+    def verify(self, c, fdef, classctx=None):
+        if classctx is None:
+            raise StaleContract(f"{c.qualname}: not a method")
+        forbidden = c.extra.get("forbidden_methods", ())
+        have = {n.name for n in classctx.body if isinstance(n, ast.FunctionDef)}
+        have |= {t.id for n in classctx.body if isinstance(n, ast.Assign) for t in n.targets if isinstance(t, ast.Name)}
+        obls = []
+        for m in forbidden:
+            obls.append(Obligation(f"{c.module}:{classctx.name}#class-defines-no:{m}", "frame", [],
+                                   z3.BoolVal(m not in have), c.qualname, classctx.lineno))
+        return obls
